@@ -275,12 +275,29 @@ fn scenario(cx: &mut Ctx, rng: &mut Rng) {
                 for want in [0usize, 1, 3, 5] {
                     let bs: BBox<[ZTok]> = BBox::from_iter_in((0..len).map(|_| ZTok), cx.bump);
                     ZDROPS.with(|z| z.set(0));
-                    let accepted = match want {
-                        0 => match BBox::<[ZTok; 0]>::try_from(bs) { Ok(a) => { drop(a); true } Err(b) => { drop(b); false } },
-                        1 => match BBox::<[ZTok; 1]>::try_from(bs) { Ok(a) => { drop(a); true } Err(b) => { drop(b); false } },
-                        3 => match BBox::<[ZTok; 3]>::try_from(bs) { Ok(a) => { let back: BBox<[ZTok]> = BBox::from(a); drop(back); true } Err(b) => { drop(b); false } },
-                        _ => match BBox::<[ZTok; 5]>::try_from(bs) { Ok(a) => { drop(a); true } Err(b) => { drop(b); false } },
-                    };
+                    // an accepted array goes back to a slice: same length, nothing dropped on the way
+                    macro_rules! conv { ($n:literal) => {
+                        match BBox::<[ZTok; $n]>::try_from(bs) {
+                            Ok(a) => {
+                                let back: BBox<[ZTok]> = BBox::from(a);
+                                let (l, early) = (back.len(), ZDROPS.with(|z| z.get()));
+                                drop(back);
+                                if l != $n || early != 0 {
+                                    cx.line(format!("X zst array of {} back to slice: len={} dropped_early={}", $n, l, early));
+                                }
+                                true
+                            }
+                            Err(b) => {
+                                let (l, early) = (b.len(), ZDROPS.with(|z| z.get()));
+                                drop(b);
+                                if l != len || early != 0 {
+                                    cx.line(format!("X zst slice of {} refused as array of {}: returned len={} dropped_early={}", len, $n, l, early));
+                                }
+                                false
+                            }
+                        }
+                    } }
+                    let accepted = match want { 0 => conv!(0), 1 => conv!(1), 3 => conv!(3), _ => conv!(5) };
                     let dropped = ZDROPS.with(|z| z.get());
                     if accepted != (len == want) || dropped as usize != len {
                         cx.line(format!("X zst slice of {} to array of {}: accepted={} dropped={}", len, want, accepted, dropped));
